@@ -225,7 +225,7 @@ def frag(i):
     if i == 7:
         return "link_in"
     if i == 8:
-        return "decoy"
+        return "n" * 300
     if i == 9:
         return "b"
     if i == 10:
@@ -233,10 +233,12 @@ def frag(i):
     if i == 11:
         return "é"
     if i == 12:
-        return "outside"
+        return "decoy"
     if i == 13:
         return "search"
-    return "c"
+    if i == 14:
+        return "c"
+    return "n" * 300
 
 
 def prefix(i):
@@ -355,7 +357,7 @@ def _mk_real(kind, p, use_async, wide):
     if wide:
         def f(f1: int, sep: bool, f2: int, s: int, reject: bool, ext: bool) -> bool:
             """
-            pre: 0 <= f1 <= 14 and 0 <= f2 <= 14 and 0 <= s <= 4
+            pre: 0 <= f1 <= 15 and 0 <= f2 <= 15 and 0 <= s <= 4
             post: _
             """
             if excluded(nm, locals()):
